@@ -160,11 +160,24 @@ contract(f"{VT}:VAMTransmissionManagement.send_next_vam", props=[], assumed=True
          modifies=["self.last_vam_generation_delta_time", "self.last_sent_position", "self.last_vam_speed", "self.last_vam_heading", "self.is_first_vam", "self.last_lf_vam_time"],
          ghost_effect=_send_ghost, ensures={}, **{k: v for k, v in SV.items() if k != "props"})
 contract(f"{VT}:VAMTransmissionManagement.location_service_callback", shapes={"self": VTM, "tpv": VTPV},
-         modifies=["self.*"],
+         modifies=["self.*"], props=["C10", "C11"],
          ensures={"at_most_one_vam_per_report": "len(ghost('vams')) <= 1",
                   "first_report_sends": "implies(old(self.last_vam_generation_delta_time) is None and not suppressed(), len(ghost('vams')) == 1)",
                   "suppressed_sends_nothing": "implies(suppressed(), len(ghost('vams')) == 0)",
                   "at_most_t_genvam_max_apart": "implies(old(self.last_vam_generation_delta_time) is not None and not suppressed() and report_gap_ms(self, tpv) >= 5000, len(ghost('vams')) == 1)",
                   "at_least_t_genvam_min_apart": "implies(len(ghost('vams')) == 1 and old(self.last_vam_generation_delta_time) is not None, report_gap_ms(self, tpv) >= 100)"},
          inline=[f"{CT}:GenerationDeltaTime.from_timestamp", f"{CT}:GenerationDeltaTime.__sub__"],
-         **SV)
+         **{k: v for k, v in SV.items() if k != "props"})
+
+
+# ------------------------------------------------------------------------------------------- VAM low-frequency container
+_VAMMSG = T.rec(f"{VT}:VAMMessage", cam=T.opaque("object"), vam=T.dict(_open=True, vam=T.dict(_open=True, vamParameters=T.dict(
+    basicContainer=T.opaque("object"), vruHighFrequencyContainer=T.opaque("object"),
+    vruClusterOperationContainer=(T.opaque("object"), "optional"), vruClusterInformationContainer=(T.opaque("object"), "optional")))))
+_LF = "('vruLowFrequencyContainer' in vam.vam['vam']['vamParameters'])"
+contract(f"{VT}:VAMTransmissionManagement._attach_lf_container_if_due", shapes={"self": VTM, "vam": _VAMMSG},
+         modifies=["self.last_lf_vam_time"], props=["C10", "C11"],
+         ensures={"low_frequency_container_iff_first_vam_or_2s_since_the_last_one_that_carried_it_or_cluster_operation":
+                  _LF + " == (old(self.is_first_vam) or old(self.last_lf_vam_time) is None or (now() - old(self.last_lf_vam_time)) * 1000 >= 2000 or 'vruClusterOperationContainer' in vam.vam['vam']['vamParameters'])",
+                  "inclusion_time_recorded_only_when_the_container_is_included": "self.last_lf_vam_time == (now() if " + _LF + " else old(self.last_lf_vam_time))"},
+         cover=[_LF, "not " + _LF], **{k: v for k, v in SV.items() if k != "props"})
